@@ -22,13 +22,15 @@
 //! injection is exhausted.
 
 use crate::budget::{BudgetEnforcer, EnforcingPolicy};
-use crate::buffered_input::{ChunkedChars, buffered_input_from_reader_with_limit};
+use crate::buffered_input::{
+    ChunkedChars, EofSafeInput, buffered_input_from_reader_with_limit,
+};
 use crate::de::{AliasLimits, Budget, Error, Ev, Events, Location};
 use crate::de_error::budget_error;
 use crate::location::location_from_span;
 use crate::options::BudgetReportCallback;
 use crate::tags::SfTag;
-use saphyr_parser::{BufferedInput, Event, Parser, ScalarStyle, ScanError, Span, StrInput};
+use saphyr_parser::{Event, Parser, ScalarStyle, ScanError, Span, StrInput};
 use smallvec::SmallVec;
 use std::borrow::Cow;
 use std::cell::RefCell;
@@ -36,7 +38,7 @@ use std::rc::Rc;
 
 type StreamReader<'a> = Box<dyn std::io::Read + 'a>;
 type StreamBufReader<'a> = std::io::BufReader<StreamReader<'a>>;
-type StreamInput<'a> = BufferedInput<ChunkedChars<StreamBufReader<'a>>>;
+type StreamInput<'a> = EofSafeInput<ChunkedChars<StreamBufReader<'a>>>;
 // NOTE: `BufferedInput` is a streaming input without stable backing storage.
 // Upstream implements `BorrowedInput<'static>` for it, so the parser's event lifetime is `'static`.
 // This is fine for our reader-based mode since we never borrow from the original input string.
@@ -167,7 +169,7 @@ impl<'a> LiveEvents<'a> {
         // Build a streaming character iterator from the byte reader, honoring input byte cap if configured
         let max_bytes = budget.as_ref().and_then(|b| b.max_reader_input_bytes);
         let (input, error) = buffered_input_from_reader_with_limit(inputs, max_bytes);
-        let parser = Parser::new(input);
+        let parser = Parser::new(EofSafeInput::new(input));
         Self {
             produced_any_in_doc: false,
             synthesized_null_emitted: false,
